@@ -63,7 +63,7 @@ for p in props:
                  "concrete_input": bool(viol) and not any("no-failing-input-found" in v for v in viol[:1]),
                  "first_violation": replay, "lines": [l[:300] for l in lines][:12], "wall_s": round(time.time() - t0)}
     print(name, p, "exit", r.returncode, "detected" if checks[p]["detected"] else "MISSED", "concrete" if checks[p]["concrete_input"] else "", f"{time.time()-t0:.0f}s")
-meta["checks"] = checks
+meta.setdefault("checks", {}).update(checks)
 json.dump(meta, open(os.path.join(dst, "meta.json"), "w"), indent=1)
 if "--keep" not in sys.argv:
     shutil.rmtree(scratch, ignore_errors=True)
